@@ -30,6 +30,18 @@ theorem remove_refines (s : RegionsInfo) (r : Region) (h : Inv s) (hr : getRegio
     Inv (removeRegion s r) ∧ abs (removeRegion s r) = C07.remove (abs s) r.id :=
   removeRegion_refines h hr
 
+/-- RemoveRegion with an OLDER RegionInfo of a cached id (RaftCluster.DropCacheRegion reads the region and removes
+    it under two lock acquisitions; a heartbeat that moves the leader or changes roles / pending peers can land in
+    between): if the old object still has the start key and size of the cached region and a peer (one per store) on
+    every store where the cached region is indexed, the id leaves the map, the main tree and every sub-tree, and
+    all counters stay exact. -/
+theorem remove_stale_refines (s : RegionsInfo) (g c : Region) (h : Inv s)
+    (hc : getRegion s g.id = some c) (h1 : g.startKey = c.startKey) (h3 : g.size = c.size)
+    (hnd : (g.peers.map (·.store)).Nodup)
+    (hcover : ∀ role st, C07.OnStore role st c → st ∈ g.peers.map (·.store)) :
+    Inv (removeRegion s g) ∧ abs (removeRegion s g) = C07.remove (abs s) g.id :=
+  removeRegion_stale_refines h hc h1 h3 hnd hcover
+
 /-- one step of a history: put a region, or drop the cached region of an id (RaftCluster.DropCacheRegion) -/
 inductive Mut where
   | put (r : Region)
